@@ -112,6 +112,9 @@ def main():
       "C03": " Model graph (without move-to-process operations) and races also run on the in-process build.",
       "C04": " All cases except chains through a forked process also run on the in-process build.",
       "C06": " Schedules and scripted histories also run on the in-process build.",
+      "C07": " The same scenarios also run on the in-process build.",
+      "C17": " The same scenarios also run on the in-process build.",
+      "C20": " The same scenarios also run on the in-process build.",
       "C08": " Server/client schedules, many-servers and dropped-unused cases also run on the in-process build (registry rendezvous).",
       "C09": " Streams (without the forked holder and the crashing carrier) and races also run on the in-process build.",
     }
